@@ -6,6 +6,7 @@ import (
 	"fmt"
 	"net/http"
 	"net/http/httptest"
+	"strconv"
 	"strings"
 	"testing"
 
@@ -16,7 +17,7 @@ import (
 	"verif/harness/stats"
 )
 
-const ruleC16a = "Session: rapid-generated writer shape (Flusher | FlushError | both | none, wrapped 0..3 times behind Unwrap) x 1..8 operations Send(message)/Flush x fault plan (k-th underlying Write fails after accepting a prefix; j-th underlying flush fails where the shape can report it); an ordered log of Header/Write/flush calls is checked: upgrade refused iff no flushing writer is reachable; no body byte before a successful flush with Content-Type text/event-stream in the header; the header is not re-assigned after that (a tampered value must survive); body == concatenation of the reference encodings (a prefix for the failing Send); Flush()==nil implies every byte written is covered by a successful flush; every operation returns exactly the first underlying error it caused, else nil. Non-trivial: >= 2 Sends with a Flush between them and a fault at an operation index >= 1."
+const ruleC16a = "Session: rapid-generated writer shape (Flusher | FlushError | both | none, wrapped 0..3 times behind Unwrap) x 1..8 operations Send(message)/Flush (12% of the messages carry a data line of 512..70000 bytes) x fault plan (k-th underlying Write fails after accepting a prefix; j-th underlying flush fails where the shape can report it); an ordered log of Header/Write/flush calls is checked: upgrade refused iff no flushing writer is reachable; no body byte before a successful flush with Content-Type text/event-stream in the header; the header is not re-assigned after that (a tampered value must survive); body == concatenation of the reference encodings (a prefix for the failing Send); Flush()==nil implies every byte written is covered by a successful flush; every operation returns exactly the first underlying error it caused, else nil. Non-trivial: >= 2 Sends with a Flush between them and a fault at an operation index >= 1."
 const ruleC16b = "Server: rapid-generated Last-Event-Id header values (absent, empty, valid, with CR/LF, several values) x OnSession (nil | accept with 0..3 topics | reject after writing a status/body or nothing) x provider stub (records the Subscription, sends 0..3 messages through it, returns nil or an error before/after sending) x writer shape; Subscription fields, rejection silence and the 500 answers are checked against the statement. Non-trivial: the header value is non-trivial (present, not a plain token) and OnSession is set. Distinct: FNV-64 of the JSON of the case."
 
 type SessOp struct {
@@ -29,6 +30,7 @@ type MsgSpec struct {
 	Type string   `json:"type,omitempty"`
 	Data []string `json:"data,omitempty"`
 	Cmt  []string `json:"cmt,omitempty"`
+	Long int      `json:"long,omitempty"` // a further data line of this many bytes (beyond any buffer a writer path may use)
 }
 
 func (m MsgSpec) build() (*sse.Message, oracle.Msg) {
@@ -43,6 +45,11 @@ func (m MsgSpec) build() (*sse.Message, oracle.Msg) {
 		mod.TypeSet, mod.Type = true, m.Type
 	}
 	for _, d := range m.Data {
+		msg.AppendData(d)
+		mod.Chunks = append(mod.Chunks, oracle.Chunk{Text: d})
+	}
+	if m.Long > 0 {
+		d := strings.Repeat("y", m.Long)
 		msg.AppendData(d)
 		mod.Chunks = append(mod.Chunks, oracle.Chunk{Text: d})
 	}
@@ -67,6 +74,9 @@ var genMsgSpec = rapid.Custom(func(t *rapid.T) MsgSpec {
 	}
 	if stats.Pct(t, "hascmt") < 25 {
 		m.Cmt = []string{"c"}
+	}
+	if stats.Pct(t, "haslong") >= 88 {
+		m.Long = stats.From(t, []int{512, 4000, 4089, 4090, 4095, 4096, 4097, 5000, 8192, 20000, 70000}, "long")
 	}
 	return m
 })
@@ -188,7 +198,7 @@ func checkC16(t *testing.T, c C16Case) *stats.Verdict {
 			}
 		}
 		if co.body.String() != wantBody.String() {
-			return v.Failf("", "%s: body is %q, want %q", what, co.body.String(), wantBody.String())
+			return v.Failf("", "%s: body is %s, want %s", what, abbrev(co.body.String()), abbrev(wantBody.String()))
 		}
 		// once the upgrade flush succeeded the header must not be assigned again: tamper and watch
 		if co.headerFlushedOK {
@@ -461,4 +471,26 @@ func TestC16Server(t *testing.T) {
 
 func FuzzC16(f *testing.F) {
 	stats.Fuzz(f, stats.Prop[C16Case]{ID: "C16", Rule: ruleC16a, Gen: genC16, Check: checkC16})
+}
+
+// abbrev quotes s, replacing long runs of the filler byte by a count.
+func abbrev(s string) string {
+	var b strings.Builder
+	for i := 0; i < len(s); {
+		j := i
+		for j < len(s) && s[j] == 'y' {
+			j++
+		}
+		if j-i > 16 {
+			fmt.Fprintf(&b, "<%d*y>", j-i)
+			i = j
+			continue
+		}
+		if j == i {
+			j++
+		}
+		b.WriteString(s[i:j])
+		i = j
+	}
+	return strconv.Quote(b.String())
 }
